@@ -781,3 +781,16 @@ Theorem bad_version be a ip v flags : v <> 4 -> v <> 6 -> (forall n, a <> ANet n
   net_init be a ip (Some v) flags = Raise ValueError.
 Proof. intros H4 H6 N1 N2. unfold net_init. destruct a; try (exfalso; eapply N1; reflexivity); try (exfalso; eapply N2; reflexivity);
   (case_eqb v 4; [contradiction|]); (case_eqb v 6; [contradiction|]); reflexivity. Qed.
+
+(* implicit_prefix: IPNetwork(s, implicit_prefix=True) is IPNetwork(cidr_abbrev_to_verbose(s)) *)
+Lemma net_init_abbrev be s s' version flags : cidr_abbrev_to_verbose s = Ok s' ->
+  net_init be (AStr s) true version flags = net_init be (AStr s') false version flags.
+Proof. intros H. unfold net_init, parse_ip_network. now rewrite !(parse_str_abbrev be _ s s' H). Qed.
+
+Theorem rejects_address_implicit be s val1 rest version flags : cidr_abbrev_to_verbose s = Ok (val1 ++ rest)%string ->
+  contains_char "/" val1 = false -> (rest = ""%string \/ exists t, rest = ("/" ++ t)%string) ->
+  (version = Some 4 \/ version = None -> v4_unreadable be val1) ->
+  (version = Some 6 \/ version = None -> v6_unreadable be val1) ->
+  version = Some 4 \/ version = Some 6 \/ version = None ->
+  net_init be (AStr s) true version flags = Raise AddrFormatError.
+Proof. intros H NS Hr H4 H6 Hver. rewrite (net_init_abbrev be s _ version flags H). now apply rejects_address. Qed.
